@@ -65,6 +65,28 @@ def validate_concurrent(ctx, binary, rounds, payload=None):
         ctx.samples.append({"concurrent_trace_excerpt": [json.loads(x) for x in lines[:12]]})
 
 
+def empty_key_probe(ctx, binary):
+    """The property's domain names the EMPTY key. Pebble v2's columnar sstable writer panics
+    ('unreachable', colblk.PrefixBytesBuilder.Finish) in a background flush goroutine when a
+    memtable holding the empty key is flushed — the process dies, db/memory does not mind. juno's
+    own keys always start with a bucket byte, so the model's key alphabet is non-empty and the
+    empty key is probed in a process of its own."""
+    for backend in ("memory", "pebble", "pebblev2"):
+        try:
+            res = ctx.run_engine(binary, "TestKVEmptyKeyProbe", {"backend": backend}, timeout=120)
+        except vlib.Broken as e:
+            msg = str(e)
+            if "panic:" in msg and "pebble" in msg:
+                ctx.report("kv:%s:empty-key:process-dies-on-flush" % backend,
+                           "backend %s: Put(empty key) followed by a memtable flush kills the process (%s)" % (
+                               backend, msg[msg.find("panic:"):][:80].replace("\n", " ")),
+                           {"property": "C15", "engine": "kv", "test": "TestKVEmptyKeyProbe", "seed": ctx.seed,
+                            "input": {"backend": backend}})
+                continue
+            raise
+        ctx.absorb(res, "kv", "TestKVEmptyKeyProbe")
+
+
 def run(ctx):
     binary = ctx.build_engine("kv")
     if ctx.replay:
@@ -95,6 +117,7 @@ def run(ctx):
     res = ctx.run_engine(binary, "TestKVReplay", {"keys": KEYS_FULL, "behaviours": behaviours}, timeout=3000)
     ctx.absorb(res, "kv", "TestKVReplay")
     validate_concurrent(ctx, binary, rounds=60 if thorough else 15)
+    empty_key_probe(ctx, binary)
     ctx.coverage["behaviours_generated"] = len(behaviours)
     ctx.coverage["steps_replayed"] = res.get("steps", 0)
     ctx.assumptions += [
